@@ -3,6 +3,7 @@
 //! same accept/reject decision and the same records (multiset of lines) as a freshly built
 //! formatter with the same configuration. See DESIGN.md §7 C14.
 
+use metrique_writer::Entry as _;
 use checks::emf_util::*;
 use metrique_writer::format::Format;
 use metrique_writer::sample::SampledFormat;
@@ -34,6 +35,9 @@ enum Item {
     Entry(ProgramEntry),
     /// the in-band `MetriqueValidationError` entry a sink writes after a validation failure
     ErrorReport(String),
+    /// the same merged with a globals entry that provides the default dimensions (what
+    /// `merge_globals(..).report_error(..)` hands to the format after a validation failure)
+    ErrorReportWithGlobals(String, ProgramEntry),
 }
 
 #[derive(Clone, Copy, Debug)]
@@ -90,6 +94,9 @@ impl Fm {
         let r = match (self, item) {
             (Fm::Plain(f), Item::Entry(e)) => f.format(e, &mut w),
             (Fm::Plain(f), Item::ErrorReport(m)) => f.format(&MetriqueValidationError::new(m), &mut w),
+            (Fm::Plain(f), Item::ErrorReportWithGlobals(m, g)) => f.format(&g.clone().merge(MetriqueValidationError::new(m)), &mut w),
+            (Fm::Sampled(f, _), Item::ErrorReportWithGlobals(m, g)) if how == Some(None) => f.format(&g.clone().merge(MetriqueValidationError::new(m)), &mut w),
+            (Fm::Sampled(f, rate), Item::ErrorReportWithGlobals(m, g)) => f.format_with_sample_rate(&g.clone().merge(MetriqueValidationError::new(m)), &mut w, how.flatten().unwrap_or(*rate)),
             (Fm::Sampled(f, _), Item::Entry(e)) if how == Some(None) => f.format(e, &mut w),
             (Fm::Sampled(f, _), Item::ErrorReport(m)) if how == Some(None) => f.format(&MetriqueValidationError::new(m), &mut w),
             (Fm::Sampled(f, rate), Item::Entry(e)) => f.format_with_sample_rate(e, &mut w, how.flatten().unwrap_or(*rate)),
@@ -146,7 +153,7 @@ fn sorted_lines(bytes: &[u8]) -> Vec<Vec<u8>> {
 fn has_timestamp(item: &Item) -> bool {
     match item {
         Item::Entry(e) => e.ops.iter().any(|o| matches!(o, POp::Timestamp(_))),
-        Item::ErrorReport(_) => false,
+        Item::ErrorReport(_) | Item::ErrorReportWithGlobals(..) => false,
     }
 }
 
@@ -157,6 +164,7 @@ fn item_json(i: &Item) -> vcommon::serde_json::Value {
             if j.len() > 3000 { json!(format!("{}…[{} bytes of entry json]", &j[..j.char_indices().nth(3000).map(|x| x.0).unwrap_or(j.len())], j.len())) } else { e.json() }
         }
         Item::ErrorReport(m) => json!({"error_report": m}),
+        Item::ErrorReportWithGlobals(m, g) => json!({"error_report": m, "merged_with_globals": g.json()}),
     }
 }
 
@@ -170,7 +178,14 @@ fn gen_item(rng: &mut Rng, cfg: &Cfg, thorough: bool) -> (Item, &'static str) {
         return (Item::Entry(e), "huge-distribution");
     }
     match rng.below(20) {
-        0 => (Item::ErrorReport("metric entry could not be formatted correctly".into()), "error-report"),
+        0 if rng.bool() => (Item::ErrorReport("metric entry could not be formatted correctly".into()), "error-report"),
+        0 => {
+            let mut names: Vec<&String> = cfg.default_dims.iter().flatten().collect();
+            names.sort();
+            names.dedup();
+            let ops = names.into_iter().map(|n| POp::Value(n.clone(), PVal::Str(format!("v{}", rng.below(3))))).collect();
+            (Item::ErrorReportWithGlobals("metric entry could not be formatted correctly".into(), ProgramEntry::new(ops)), "error-report-with-globals")
+        }
         1 | 2 => {
             // multi-megabyte entry
             let mut e = gen_valid_entry(rng, cfg, false, false);
